@@ -141,3 +141,40 @@ def run_vars(prog):
                      "SExpr::%s no longer resolves the value it found in the defvar table again: `(defvar a $b b 5)` stops working "
                      "when the alias is defined before its target" % nm)
     return res
+
+
+def run_layer_lists(prog):
+    """R-LAYER-ORDER: parse_cfg_raw_string builds the list of layer expressions twice (with spans, for names / indexes /
+    count checks, and without, for the layer bodies). Index i of one must be index i of the other: both are produced
+    by filtering the top-level expressions in file order: the same order-affecting adaptors (chain, rev, skip, sort, ..),
+    normally none, appear in both pipelines."""
+    from kq.analysis import backward_slice
+    from kq.core import callee_name
+    res = RuleResult("R-LAYER-ORDER", "layer names and layer bodies are listed in the same order", floor=2)
+    f = prog.fn("kanata_parser::cfg::parse_cfg_raw_string")
+    res.fn(f)
+    pipes = {}
+    for bi, t in f.calls():
+        cn = callee_name(t) or ""
+        if not cn.endswith("Iterator::collect"):
+            continue
+        ty = f.local_ty(t["dest"]["l"]) or ""
+        for tag, needle in (("spanned", "Vec<kanata_parser::cfg::SpannedLayerExprs>"), ("plain", "Vec<kanata_parser::cfg::LayerExprs>")):
+            if needle in ty:
+                _, cals, _ = backward_slice(f, t["args"][0])
+                order_affecting = ("chain", "rev", "skip", "skip_while", "take", "take_while", "step_by", "zip", "flat_map", "flatten",
+                                   "cycle", "sort", "sort_by", "sort_by_key", "sort_unstable", "dedup", "partition", "extend", "append",
+                                   "insert", "swap", "reverse", "rotate_left", "rotate_right")
+                ad = sorted(c.split("::")[-1] for c in cals if c.split("::")[-1] in order_affecting)
+                pipes[tag] = ad
+                res.inst("pipeline/" + tag, adaptors=ad)
+    if set(pipes) != {"spanned", "plain"}:
+        res.viol("anchors", f.loc, "could not find both layer lists (SpannedLayerExprs / LayerExprs) in parse_cfg_raw_string")
+        return res
+    ok = pipes["spanned"] == pipes["plain"]
+    res.oblige(ok)
+    if not ok:
+        res.viol("pipelines-differ", f.loc,
+                 "the spanned layer list is built with %s but the plain one with %s: layer names/indexes and layer bodies can be "
+                 "paired up in different orders" % (pipes["spanned"], pipes["plain"]))
+    return res
